@@ -171,6 +171,18 @@ func c18Programs() []Program {
 		s.Alter = "none"
 		ps = append(ps, Program{Kind: "token", Token: &s})
 	}
+	// options given with empty, non-nil lists
+	for i := 0; i < 4; i++ {
+		var s USpec
+		s.Key = []string{"ed0", "rsa0"}[i%2]
+		s.Aud = "ed14"
+		s.Fields.Att = []UCap{{Can: "store/add", With: "did:key:z6MkExample", Nb: tvMap(nil)}}
+		e := c18Now + 11000 + i
+		s.Fields.Exp = &e
+		s.EmptyFacts, s.EmptyProofs = i < 2 || i == 3, i >= 2
+		s.Alter = "none"
+		ps = append(ps, Program{Kind: "token", Token: &s})
+	}
 	return ps
 }
 
@@ -213,6 +225,12 @@ func runProgram(p Program) (Artifacts, error) {
 		var fb []ucan.FactBuilder
 		for _, f := range s.Fields.Fct {
 			fb = append(fb, factB{f})
+		}
+		if s.EmptyFacts && fb == nil {
+			fb = []ucan.FactBuilder{}
+		}
+		if s.EmptyProofs && prfs == nil {
+			opts = append(opts, delegation.WithProof(delegation.Proofs{}...))
 		}
 		opts = append(opts, delegation.WithFacts(fb))
 		d, err := delegation.Delegate(sg, audS, caps, opts...)
